@@ -3138,12 +3138,17 @@ func (te *TemplateEngine) processImagePlaceholdersInParagraph(para *Paragraph, d
 
 // createTextParagraph 创建文本段落（保持原段落样式）
 func (te *TemplateEngine) createTextParagraph(text string, originalPara *Paragraph) *Paragraph {
-	newPara := te.cloneParagraph(originalPara)
+	// 只复制段落属性和第一个run：结果只保留第一个run，整段深拷贝会让含有很多run、
+	// 很多图片占位符的段落产生 run数×占位符数 次拷贝（几千个run时占用数GB内存）
+	newPara := &Paragraph{
+		Properties: te.cloneParagraphProperties(originalPara.Properties),
+	}
 
 	// 设置文本内容，保持原有样式
-	if len(newPara.Runs) > 0 {
-		newPara.Runs[0].Text.Content = text
-		newPara.Runs = newPara.Runs[:1] // 只保留第一个run
+	if len(originalPara.Runs) > 0 {
+		first := te.cloneRun(&originalPara.Runs[0])
+		first.Text.Content = text
+		newPara.Runs = []Run{first} // 只保留第一个run
 	} else {
 		// 如果原段落没有runs，创建一个默认的
 		newPara.Runs = []Run{{
